@@ -21,7 +21,13 @@
 //! delivered sequence == sent sequence; `front_buf`/`back_buf` capacity <= `max_buffer_size`
 //! after every call; malformed frame => `Err`, never `Ok(garbage)`, never a panic; after an
 //! in-range malformed frame the valid frames behind it are delivered within K further calls;
-//! bounded work per call.
+//! bounded work per call; a writer whose `writable()` met would-block must finish the job once
+//! the peer has read everything the kernel held (SIOCOUTQ == 0 / peer read hits EAGAIN) and the
+//! owner has reacted to WRITABLE 8 more times in both disciplines of the tree (`handle_events` +
+//! `run()`-style gating as lib/src/server.rs, `handle_events` + unconditional `writable()` as
+//! bin/src/command/sessions.rs) without queuing a new message: otherwise
+//! `channel/stranded_after_would_block/<family>` (decided on these logical steps, no wall clock;
+//! the only timers left are watchdogs that yield `inconclusive`).
 
 mod drive;
 mod families;
